@@ -26,7 +26,12 @@ for b in reports:
     if key in seen:
         continue
     seen.add(key); dedup += 1
-    if any(any(fl.endswith("/" + a) for a in anchors) for fl in files):
+    # an anchor is a file name ("nonce.go") or, with a trailing slash, a package directory ("crypto/")
+    def hit(fl, a):
+        if a.endswith("/"):
+            return ("/" + a) in fl and "zz_verif" not in fl and not fl.endswith("_test.go")
+        return fl.endswith("/" + a)
+    if any(any(hit(fl, a) for a in anchors) for fl in files):
         hits.append(b)
 rc = 0
 if hits:
